@@ -51,6 +51,7 @@ type skel struct {
 	rel    string
 	sb     strings.Builder
 	lits   []Lit
+	holes  map[ast.Node]bool // sub-trees that are translated elsewhere (gate conditions)
 	locals map[string]bool   // identifiers declared inside the declaration (params, :=, var, range)
 	rename map[string]string // local identifier -> canonical name, by first occurrence
 	noRen  map[*ast.Ident]bool
@@ -178,6 +179,12 @@ func (s *skel) walk(n ast.Node) {
 			s.sb.WriteString(")")
 			return true
 		}
+		if s.holes[n] {
+			s.sb.WriteString("(§gate")
+			// the closing parenthesis is written by the nil callback only when we descend; we do not
+			s.sb.WriteString(")")
+			return false
+		}
 		switch x := n.(type) {
 		case *ast.Comment, *ast.CommentGroup:
 			return false
@@ -251,8 +258,11 @@ func (s *skel) walk(n ast.Node) {
 	})
 }
 
+var gateHoles = map[ast.Node]bool{}
+var gatesText string
+
 func skeletonOf(fset *token.FileSet, rel string, n ast.Node) (string, []Lit) {
-	s := &skel{fset: fset, rel: rel}
+	s := &skel{fset: fset, rel: rel, holes: gateHoles}
 	s.collectLocals(n)
 	s.walk(n)
 	return s.sb.String(), s.lits
@@ -863,6 +873,18 @@ func main() {
 				facts.VerifFiles = append(facts.VerifFiles, v)
 			}
 		}
+		if p.prefix == "" {
+			// the gate conditions are translated; they become holes of the skeletons computed below
+			funcs := map[string]*ast.FuncDecl{}
+			for _, rel := range order {
+				for _, d := range files[rel].Decls {
+					if fd, ok := d.(*ast.FuncDecl); ok && fd.Recv == nil {
+						funcs["func:"+fd.Name.Name] = fd
+					}
+				}
+			}
+			gatesText = gatesLean(&facts, funcs, gateHoles)
+		}
 		for _, rel := range order {
 			allFiles[rel] = files[rel]
 			facts.Files = append(facts.Files, rel)
@@ -1055,6 +1077,7 @@ func main() {
 	}
 	gen["Lang.lean"] = langLean(&facts, names)
 	gen["Source.lean"] = sourceLean(&facts, allFiles)
+	gen["Gates.lean"] = gatesText
 	gen["Consts.lean"] = constsLean(&facts)
 	for rel, c := range gen {
 		ch, err := writeIfChanged(filepath.Join(*out, rel), c)
